@@ -8,10 +8,10 @@ R = {
  "C02c": ("missed at first", ["C02"], "gadget `if (x<c1) invalid; if (x>c2) A else B` in fam_control; probe jumpi-invalid-then-branch; probes also run by C02"),
  "C03": ("missed at first", ["C03", "C01"], "testgen.sibling_tree + focus mode; equality guards in progs.Gen.cond"),
  "C03b": ("missed by C03 at first", ["C12", "C03"], "testgen.gen_dynamic_contract (uint256[] / bytes parameters)"),
- "C03c": ("missed by C03 at first", ["C04", "C03?"], "division templates where the divisor is learnt to be zero after the operation (`late`), `znz`"),
+ "C03c": ("missed by C03 at first", ["C04", "C03"], "division templates where the divisor is learnt to be zero after the operation (`late`), `znz`"),
  "C04": ("missed by C04 at first", ["C11", "C04"], "testgen.gen_divzero_contract"),
  "C04b": ("missed at first", ["C04"], "EXP templates exp_mul / exp_div / exp_only"),
- "C05": ("C16 ended in a machinery error at first", ["C16", "C05?"], "C16 judges real logs before negative controls"),
+ "C05": ("C16 ended in a machinery error at first; C05 had no cache scenario with a sat reply", ["C16", "C05"], "C16 judges real logs before negative controls; MC_Verdict_gencachesat scenarios in C05"),
  "C06": ("first run", ["C06", "C01"], ""),
  "C06b": ("first run", ["C06"], ""),
  "C07": ("first run", ["C07"], ""),
